@@ -639,6 +639,13 @@ carquet_status_t carquet_writer_write_batch(
         rep_levels);
 
     if (status != CARQUET_OK) {
+        /* Past the argument checks a batch can fail only after part of it has
+         * been taken (levels without their values, a full page that could not
+         * be finished, counts not yet recorded): the row group can no longer
+         * be completed. */
+        if (status != CARQUET_ERROR_INVALID_ARGUMENT) {
+            writer->broken = status;
+        }
         return status;
     }
 
